@@ -161,11 +161,16 @@ func gen(o hreg.Opts, w *bufio.Writer) error {
 		}
 	}
 	// Merkle branches: honest proofs from random trees of every depth 0..64 (sparse path), and corruptions.
-	m := o.Pick(400, 20000)
+	m := o.Pick(500, 20000)
 	for i := 0; i < m; i++ {
-		depth := uint64(i % 65)
-		if i >= 65*3 {
+		// depths 0..72: beyond 64 every further level treats the node as a left child (bit i of a
+		// 64-bit index is 0 for i >= 64); the code must neither panic nor misplace the sibling there
+		depth := uint64(i % 73)
+		if i >= 73*3 {
 			depth = uint64(rng.Intn(40))
+			if rng.Intn(10) == 0 {
+				depth = 60 + uint64(rng.Intn(20))
+			}
 		}
 		var leaf tree.Root
 		rng.Read(leaf[:])
